@@ -250,6 +250,7 @@ func (fx *FnCtx) evalSpec(env *Env, e SpecExpr) SV {
 		switch u := base.V.T.Underlying().(type) {
 		case *types.Slice:
 			v := fx.readElem(env.st, u.Elem(), base.V.L[0], tc.IdxAdd(base.V.L[1], idx))
+			fx.groundFacts(v)
 			return SV{V: v}
 		case *types.Basic:
 			if u.Info()&types.IsString != 0 {
@@ -294,6 +295,22 @@ func (fx *FnCtx) evalSpec(env *Env, e SpecExpr) SV {
 	}
 	fx.specFail(e, "unsupported expression")
 	return SV{}
+}
+
+// groundFacts assumes the type-range facts of ground leaves read from memory by a spec expression.
+func (fx *FnCtx) groundFacts(v Value) {
+	if v.T == nil || v.P != nil {
+		return
+	}
+	lay := fx.tc.Layout(v.T)
+	for i, l := range lay.Leaves {
+		if i >= len(v.L) || v.L[i].hasBnd || v.L[i].Sort.Kind == SArray {
+			continue
+		}
+		for _, f := range fx.tc.leafFacts(l, v.L[i]) {
+			fx.assume(f)
+		}
+	}
 }
 
 func (fx *FnCtx) evalIdent(env *Env, x *SIdent) SV {
@@ -430,6 +447,7 @@ func (fx *FnCtx) evalField(env *Env, x *SField) SV {
 				np.Off = p.Off + off
 				np.Typ = stt.Field(k).Type()
 				v := fx.Load(env.st, &np)
+				fx.groundFacts(v)
 				return SV{V: v}
 			}
 		}
@@ -1027,7 +1045,7 @@ func (fx *FnCtx) evalQuant(env *Env, q *SQuant) SV {
 		if fx.root.boundedK > 0 && !lo.hasBnd && !hi.hasBnd {
 			// bounded instance search: ranges are explored up to 8 elements, so goals stay
 			// quantifier-free and the solver can return a model
-			const nq = 8
+			const nq = 4
 			fx.assume(tc.IdxLe(tc.IdxSub(hi, lo), tc.IdxNum(nq)))
 			var parts []*Term
 			for k := int64(0); k < nq; k++ {
